@@ -719,7 +719,7 @@ func (e *c14Exec) stored(b *Browser) string {
 				out = ""
 			}
 		}()
-		s, err := e.px.P.sessionStore.Load(req)
+		s, err := verifSessionStore(e.px.P).Load(req)
 		if err != nil || s == nil {
 			return
 		}
